@@ -1761,7 +1761,9 @@ public:
 
         for ( size_type k = n; k > l; k-- )
         {
-            word_type q = DDquotient(rem_view[k], rem_view[k-1], d);
+            // If the leading word of the remainder equals the leading word of the divisor,
+            // the two-word quotient does not fit in a word: use the largest word (Knuth, step D3).
+            word_type q = rem_view[k] >= d ? max_word : DDquotient(rem_view[k], rem_view[k-1], d);
             subtractmul( rem_view.data() + (k - l - 1), denom_view.data(), l + 1, q );
             quot_view[k - l - 1] = q;
         }
@@ -1856,7 +1858,7 @@ private:
             a[i + 1] -= hi + carry;
             carry = a[i + 1] > d;
         }
-        if ( carry ) // q was too large
+        while ( carry ) // q was too large: add b back until the borrow is cancelled
         {
             q--;
             carry = 0;
@@ -1868,7 +1870,9 @@ private:
                 if ( a[i] < d )
                     carry = 1;
             }
-            a[n] = 0;
+            d = a[n];
+            a[n] += carry;
+            carry = a[n] < d ? 0 : 1; // still negative unless the addition carried out of the top word
         }
     }
 
